@@ -1309,7 +1309,8 @@ def run_ctor_case(kinds, how):
     else:
         if exc is None:
             got = [str(b.dtype) for b in X.arrays]
-            what = (f"blocks of different dtypes accepted without ValueError (x.dtype = {X.dtype}, block dtypes {got})"
+            inp["observed"] = {"x.dtype": str(X.dtype), "block dtypes": got}
+            what = ("blocks of different dtypes accepted without ValueError (x.dtype disagrees with some block)"
                     if len(set(got)) > 1 else "blocks of different dtypes silently cast to one dtype")
         elif not isinstance(exc, ValueError):
             what = f"blocks of different dtypes rejected with {type(exc).__name__}, not ValueError"
